@@ -241,6 +241,8 @@ class load(DataStreamProcessor):
             # )
 
     def limiter(self, iterator):
+        if self.limit_rows <= 0:
+            return
         count = 0
         for row in iterator:
             yield row
@@ -277,7 +279,7 @@ class load(DataStreamProcessor):
             it = self.caster(descriptor, it)
             if self.strip:
                 it = self.stripper(it)
-            if self.limit_rows:
+            if self.limit_rows is not None:
                 it = self.limiter(it)
             yield it
 
